@@ -288,7 +288,11 @@ def make_job(spec, root):
     def job():
         b = Builder()
         for name, safe in spec['sources']:
-            b.add_source(os.path.join(root, name), safe=safe)
+            if name.startswith('raw:'):      # YAML text handed over directly, without a file name: its nodes record no file
+                with open(os.path.join(root, name[4:])) as f:
+                    b.add_source(f.read(), raw_yaml=True, safe=safe)
+            else:
+                b.add_source(os.path.join(root, name), safe=safe)
         return b.build()
     return job
 
@@ -454,7 +458,10 @@ def random_workload(rng):
                 text += rng.choice(_FAILS).format(k='bad', i=i)
             name = f't{i}s{j}.yaml'
             files[name] = text
-            srcs.append([name, rng.random() < 0.5])
+            # a third of the sources are given as text without a name (seeded change S6-C20: a process-wide "current file" that
+            # only a nameless source of another thread reads); includes inside them resolve against the working directory only
+            raw = rng.random() < 0.3 and '!include' not in text
+            srcs.append([('raw:' if raw else '') + name, rng.random() < 0.5])
         files[f'inc{i}.yaml'] = rng.choice(['p: 1\n', 'p: [1, {r: 2}]\n', f'p: !include deep{i}.yaml\n'])
         files[f'deep{i}.yaml'] = 'd: 1\n'
         threads.append({'sources': srcs})
@@ -654,7 +661,7 @@ class C20(Prop):
                     out.append(dict(case, threads=ths))
         used = set()
         for th in case['threads']:
-            used.update(s[0] for s in th['sources'])
+            used.update(s[0][4:] if s[0].startswith('raw:') else s[0] for s in th['sources'])
         for name, text in case['files'].items():
             lines = text.splitlines(keepends=True)
             if name in used and len(lines) > 1:
